@@ -53,6 +53,7 @@ def check(prog: Program, rep):
     r6(prog, rep)
     rep.rule("C12.R7", "bounds handed to add_variables become the bounds of the variables: scalar recognition covers numpy scalars (no silent default)", floor=1)
     bounds_materialised(prog, rep, "C12.R7")
+    integer_bounds_rounded(prog, rep, "C12.R7")
     rep.rule("C12.T", "helpers conform to the frozen formulation table (structure of rows, families, bounds)", floor=14)
     conformance(prog, rep, "C12.T", "C12")
 
@@ -984,6 +985,33 @@ def r6(prog, rep):
 
 # ------------------------------------------------------------------------------------------------ R7
 NUMERIC_ABCS = {"np.number", "np.generic", "numpy.number", "numpy.generic", "numbers.Number", "numbers.Real", "Number", "Real"}
+
+
+def integer_bounds_rounded(prog, rep, RID):
+    """Float data are used as bounds of integer variables (repetition caps of the cyclic models, max_multiplicity = w_max of MinGenSet).  A
+    fractional bound admits the same integers as its rounding, but HiGHS reports such models infeasible: add_variables rounds the bounds of
+    integer variables inwards (ub down, lb up) before they reach the solver."""
+    f = prog.own_method("SolverWrapper", "add_variables")
+    key = "SolverWrapper.add_variables:integer-bounds"
+    ifs = [i for i in ast.walk(f.node) if isinstance(i, ast.If) and "var_type" in norm(i.test) and "'integer'" in norm(i.test) and isinstance(i.test, ast.Compare)
+           and isinstance(i.test.ops[0], ast.Eq)]
+    down = up = None
+    for i in ifs:
+        for st in i.body:
+            if isinstance(st, ast.Assign):
+                t = norm(st.value)
+                tgt = norm(st.targets[0])
+                if "floor" in t and "ub" in tgt:
+                    down = st
+                if "ceil" in t and "lb" in tgt:
+                    up = st
+    if down is not None and up is not None:
+        rep.ok(RID, key, "bounds of integer variables are rounded inwards (ub floor, lb ceil)", f.loc(down))
+    elif down is not None or up is not None:
+        rep.violation(RID, key, "only one of the two bounds of integer variables is rounded", f.loc(down or up))
+    else:
+        rep.violation(RID, key, "bounds of integer variables reach HiGHS as they come: with a fractional upper bound (a float flow value as repetition cap, w_max = 12.5 as "
+                      "max_multiplicity) HiGHS reports feasible models kInfeasible - the flow 5, 6, 2, 2, 2, 5 scaled by 1.1 comes back unsolved", f.loc())
 
 
 def bounds_materialised(prog, rep, RID):
